@@ -200,9 +200,31 @@ func C19(c *Ctx) {
 		c.R.Check(okG, "C19-R2", "Run: after a guard only its non-nil bindings count as a match", c.pos(guardCall), "accepted value is nil, the guard-less match result, or []Bindings{exe.Bs} under exe.Bs != nil", strings.Join(whyG, "; ")+": a message the guard rejected can count as the expected one")
 		// acceptance test is 'accepted != nil'
 		okT := false
-		for _, f := range flow.FactsAt(marks[0].Block()) {
-			if bo, isB := f.Cond.(*ssa.BinOp); isB && bo.X == accepted && ssau.IsNilConst(bo.Y) && ((bo.Op == token.NEQ && f.True) || (bo.Op == token.EQL && !f.True)) {
-				okT = true
+		nonNilAt := func(v ssa.Value, b *ssa.BasicBlock) bool {
+			for _, f := range flow.FactsAt(b) {
+				if bo, isB := f.Cond.(*ssa.BinOp); isB && bo.X == v && ssau.IsNilConst(bo.Y) && ((bo.Op == token.NEQ && f.True) || (bo.Op == token.EQL && !f.True)) {
+					return true
+				}
+			}
+			return false
+		}
+		if nonNilAt(accepted, marks[0].Block()) {
+			okT = true
+		} else {
+			// every definition that reaches the mark is non-nil where it is chosen: a slice literal, or a value tested there
+			okT = true
+			for _, da := range phiEdgesWithBlocks(accepted, marks[0].Block()) {
+				if sl, isSl := da.v.(*ssa.Slice); isSl {
+					if _, isAl := sl.X.(*ssa.Alloc); isAl {
+						continue // []Bindings{...}
+					}
+				}
+				if _, isMk := da.v.(*ssa.MakeSlice); isMk {
+					continue
+				}
+				if ssau.IsNilConst(da.v) || !(nonNilAt(da.v, da.b) || nonNilAt(da.v, marks[0].Block())) {
+					okT = false
+				}
 			}
 		}
 		c.R.Check(okT, "C19-R2", "Run: an output is marked only when something was accepted", c.pos(marks[0]), "under accepted != nil", "an output can be marked satisfied without an accepted match")
